@@ -161,6 +161,39 @@ Proof.
   - discriminate.
 Qed.
 
+(* ---- the callee census: every call of a file-system callee, anywhere in the crate, is one of the sinks above;
+   no path is edited in place outside the compiled builders ------------------------------------------------- *)
+Lemma sink_calls_covered : uncovered_sink_calls g_sink_calls g_fs_sinks = [].
+Proof. vm_compute. reflexivity. Qed.
+
+Lemma key_eqb_eq : forall a b, key_eqb a b = true -> a = b.
+Proof.
+  intros [[a1 a2] a3] [[b1 b2] b3] H. unfold key_eqb in H. cbn [fst snd] in H.
+  apply andb_true_iff in H. destruct H as [H H3]. apply andb_true_iff in H. destruct H as [H1 H2].
+  apply String.eqb_eq in H1, H2, H3. subst. reflexivity.
+Qed.
+
+Lemma sink_call_is_sink : forall c, In c g_sink_calls -> exists k, In k g_fs_sinks /\ sink_key k = c.
+Proof.
+  intros c H. destruct (existsb (fun k => key_eqb c (sink_key k)) g_fs_sinks) eqn:E.
+  - apply existsb_exists in E. destruct E as [k [I K]]. exists k. split; [exact I|]. symmetry. exact (key_eqb_eq _ _ K).
+  - assert (I : In c (uncovered_sink_calls g_sink_calls g_fs_sinks)).
+    { unfold uncovered_sink_calls. apply filter_In. split; [exact H | rewrite E; reflexivity]. }
+    rewrite sink_calls_covered in I. destruct I.
+Qed.
+
+Lemma no_path_edits : path_edits g_path_edits = [].
+Proof. vm_compute. reflexivity. Qed.
+
+Definition census_witness : Prop :=
+  In "http.rs"%string g_closed_files /\ In "lib.rs"%string g_closed_files /\ In "sym_file/mod.rs"%string g_closed_files /\
+  In ("sym_file/mod.rs", "from_file", "File::open(path)")%string g_sink_calls /\
+  In ("http.rs", "fetch_lookup", ".persist_noclobber(&final_cache_path)")%string g_sink_calls /\
+  (12 <= List.length g_sink_calls)%nat /\
+  existsb (fun e => match e_kind e with EkRootAdded => true | _ => false end) g_path_edits = true.
+Lemma census_nonvacuous : census_witness.
+Proof. unfold census_witness. repeat split; try (vm_compute; tauto); vm_compute; try reflexivity; repeat constructor. Qed.
+
 Definition sinks_witness : Prop :=
   existsb (fun k => String.eqb (k_fn k) "fetch_lookup"%string && String.eqb (k_text k) ".persist_noclobber(&final_cache_path)"%string &&
                     match k_paths k with [PJoined RCacheDir (ACacheRel (GBuilt BLookup))] => true | _ => false end) g_fs_sinks = true /\
